@@ -326,9 +326,12 @@ func c04(tier string, args []string) int {
 	// ---- (d) key material of different rounds is unrelated
 	c04RoundPairs(r, &evals, &distinct)
 
+	// ---- (e) nonce discipline of the long-term key
+	c04Nonces(r, tier, &evals, &distinct)
+
 	r.Set("evaluations", evals)
 	r.Set("distinct_nontrivial", distinct)
-	r.Set("rule", "(a) every result operation of every machine (honest, repeated, garbled, reinit) and every board message searched for every secret in every encoding; (b) every (deal, machine key) pair; (c) a near-miss password alphabet against LoadKeysFromDB / GetBLSKeyrings and every database value searched for plaintext secrets; (d) every pair of rounds from a family on the same machines compared for equal group keys, shares and dealer coefficients")
+	r.Set("rule", "(a) every result operation of every machine (honest, repeated, garbled, reinit) and every board message searched for every secret in every encoding; (b) every (deal, machine key) pair; (c) a near-miss password alphabet against LoadKeysFromDB / GetBLSKeyrings and every database value searched for plaintext secrets; (d) every pair of rounds from a family on the same machines compared for equal group keys, shares and dealer coefficients; (e) every Schnorr signature in every result file of a machine across the ceremony and restart+replay in every deal order: no two with the same commitment R and different messages (else the key is recovered and compared)")
 	return finish(r)
 }
 
